@@ -331,7 +331,21 @@ class Flow:
             return k
         if isinstance(e, ast.NamedExpr):
             return self.default_kind(e.value, unit, owner, depth)
-        if not isinstance(e, ast.Name) or depth > 3:
+        if depth > 3:
+            return None
+        if isinstance(e, ast.IfExp):
+            a, b = self.default_kind(e.body, unit, owner, depth + 1), self.default_kind(e.orelse, unit, owner, depth + 1)
+            return a if a == b else None
+        if isinstance(e, ast.Call):
+            # a factory helper of the module (function, method, static method) every exit of which returns an empty
+            # container of one kind: `self._storage.set(self._empty())`
+            rets = self._helper_returns(e, unit)
+            if not rets:
+                return None
+            hu, values = rets
+            ks = {self.default_kind(v, hu, owner, depth + 1) for v in values}
+            return ks.pop() if len(ks) == 1 else None
+        if not isinstance(e, ast.Name):
             return None
         node = unit.cfg.node_of(e)
         defs = unit.rd.reaching(node, e.id) if node is not None else frozenset()
@@ -357,6 +371,22 @@ class Flow:
             return kinds.pop()
         return None
 
+    def _helper_returns(self, call: ast.Call, unit: Unit) -> tuple[Unit, list[ast.AST]] | None:
+        """(unit of the one helper of the module the call resolves to, the values of its return statements) when every
+        way out of the helper is a `return <value>` (no generator, no falling off the end); None otherwise."""
+        callees = self.callees(call, unit)
+        if len(callees) != 1:
+            return None
+        hu = callees[0][0]
+        if hu is unit or isinstance(hu.fi.node, ast.AsyncFunctionDef) or any(isinstance(n, (ast.Yield, ast.YieldFrom)) for n in hu.walk()):
+            return None
+        rets = [n for n in hu.walk() if isinstance(n, ast.Return)]
+        if not rets or any(r.value is None for r in rets):
+            return None
+        if any(not isinstance(p.ast, ast.Return) for p, l in hu.cfg.exit.preds if l != "exc"):
+            return None  # some path falls off the end (returns None)
+        return hu, [r.value for r in rets]  # type: ignore[misc]
+
     def default_wrong(self, e: ast.AST | None, unit: Unit, owner: t.Any = None, depth: int = 0) -> bool:
         """e certainly does not evaluate to an empty container: a constant (None ...), a non-empty display, or a local
         name / helper parameter that some definition / call site feeds with one.  (``default_kind`` None and this False:
@@ -371,7 +401,14 @@ class Flow:
             return True
         if isinstance(e, ast.NamedExpr):
             return self.default_wrong(e.value, unit, owner, depth)
-        if not isinstance(e, ast.Name) or depth > 3:
+        if depth > 3:
+            return False
+        if isinstance(e, ast.IfExp):
+            return self.default_wrong(e.body, unit, owner, depth + 1) or self.default_wrong(e.orelse, unit, owner, depth + 1)
+        if isinstance(e, ast.Call):
+            rets = self._helper_returns(e, unit)
+            return rets is not None and any(self.default_wrong(v, rets[0], owner, depth + 1) for v in rets[1])
+        if not isinstance(e, ast.Name):
             return False
         node = unit.cfg.node_of(e)
         for d in (unit.rd.reaching(node, e.id) if node is not None else ()):
